@@ -109,6 +109,9 @@ type OtherT struct{ A []int }
 	add("submethod-name-equals-explicit-method", scratch.Tree{"p/p.go": "package p\n\ntype In struct{ V int }\ntype Out struct{ V int }\ntype W struct{ X In }\ntype WT struct{ X Out }\n\n// goverter:converter\ntype Conv interface {\n\tConvert(source W) WT\n\t// a declared method whose name is the one goverter would give the generated helper for In -> Out\n\tPInToPOut(source []In) []Out\n}\n"}, map[string]string{})
 	add("unexported-enum-member-other-package", scratch.Tree{"p/p.go": "package p\n\ntype Lv int\n\nconst (\n\tLvLow         Lv = 1\n\tLvHigh        Lv = 2\n\tlvDebugHidden Lv = 99\n)\n\ntype Tv int\n\nconst (\n\tTvLow         Tv = 11\n\tTvHigh        Tv = 12\n\tTvDebugHidden Tv = 19\n\tTvUnknown     Tv = 0\n)\n\n// goverter:converter\n// goverter:enum:unknown TvUnknown\ntype Conv interface {\n\t// goverter:enum:transform regex (?i)lv(\\w+) Tv$1\n\tConvert(source Lv) Tv\n}\n"}, map[string]string{})
 	add("type-id-collides-with-err", scratch.Tree{"e/e.go": "package e\n\ntype Rr struct{ V int }\ntype rr struct{ V int }\n\ntype In struct{ X rr }\ntype Out struct{ X *rr }\n\nfunc F(s rr) (*rr, error) { return &s, nil }\n\n// goverter:converter\n// goverter:output:file ./gen.go\n// goverter:extend F\ntype Conv interface {\n\tConvert(source In) (Out, error)\n}\n"}, map[string]string{})
+	// D29: variadic function types in converted types must be rendered as they are declared (func(rest ...int), not func([]int))
+	add("variadic-func-type-rendered", scratch.Tree{"p/p.go": "package p\n\ntype K string\n\n// goverter:converter\n// goverter:skipCopySameType\ntype C interface {\n\tConvert(source map[K]func(rest ...int)) map[string]func(rest ...int)\n}\n"},
+		map[string]string{"p/generated/zz_assert.go": "//go:build !goverter\n\npackage generated\n\nimport up \"MODULE/p\"\n\nvar _ up.C = &CImpl{}\n"})
 	// D28: every field of an inline struct conversion skipped (ignoreMissing): the range / element variable must still count as used
 	add("ignoremissing-skips-every-field-map-value", scratch.Tree{"p/p.go": "package p\n\n// goverter:converter\n// goverter:ignoreMissing\ntype C interface {\n\tConvert(source map[string]struct{ A int }) map[string]struct{ B int }\n}\n"}, map[string]string{})
 	add("ignoremissing-skips-every-field-slice-element", scratch.Tree{"p/p.go": "package p\n\n// goverter:converter\n// goverter:ignoreMissing\ntype C interface {\n\tConvert(source []struct{ A int }) []struct{ B int }\n}\n"}, map[string]string{})
